@@ -168,7 +168,13 @@ def c09 : Handler :=
     (fun (d, ps) => depHist d ps)
     (fun _ os => C09.histOk true os)
 
+/-- `<which 0..3> <donl> <obytes> => <res view>`: a sub-parser called directly on a fresh receiver -/
+def sub : Handler :=
+  mkHandler (do let w ← Rd.nat; let d ← Rd.bool; let p ← Rd.obytes; pure (w, d, p)) rdResParsed
+    (fun (w, d, p) => subDecode w d p)
+    (fun _ o => !o.isPanic)
+
 def handlers : List (String × Handler) :=
   [("c14.acc.hdr", accHdr), ("c14.acc.fu", accFu), ("c14.acc.paci", accPaci), ("c14.acc.tsci", accTsci),
-   ("c14.dec", dec), ("c14.rt", rt), ("c08.h265", c08), ("c09.h265", c09)]
+   ("c14.dec", dec), ("c14.rt", rt), ("c14.rt.donlfu", rt), ("c08.h265", c08), ("c09.h265", c09), ("c09.h265.sub", sub)]
 end Rtp.Kinds.H265
